@@ -63,6 +63,27 @@ def bind_counts(form, terms_of) -> None:
     form.subrecs = tuple(rec(ch) for ch in form.children)
 
 
+def _starts_with_draw(form, n: int, pd: Dict[str, int], c: int) -> bool:
+    """Does the sampler begin with one draw over the parent's count (both shipped constructors do)?"""
+    if c <= 1:
+        return True
+
+    def stub(i, child):
+        def s(n, **params):
+            objs = objs_with(child, n, params)
+            if not objs:
+                raise EmptyRequest(f"child {i} asked for an object of size {n} with {params}: there is none")
+            return objs[0]
+
+        return s
+
+    form.subsamplers = tuple(stub(i, ch) for i, ch in enumerate(form.children))
+    dec = env.Decisions([])
+    _SW_DEC.cur = dec
+    form.random_sample_object_of_size(n, **pd)
+    return bool(dec.trace) and dec.trace[0][1] == c and dec.trace[0][2] == "randint"
+
+
 def _run_with_first(form, n, pd, r, picks, lists, c) -> List[Tuple[Any, Fraction]]:
     """Run with top-level draw r and the given stub picks; enumerate the final choice."""
     out: List[Tuple[Any, Fraction]] = []
@@ -93,8 +114,44 @@ def _run_with_first(form, n, pd, r, picks, lists, c) -> List[Tuple[Any, Fraction
     return out
 
 
+def distribution_generic(form, n: int, pd: Dict[str, int]) -> Tuple[Dict[Any, Fraction], int]:
+    """Every decision sequence of the sampler, the stubs' picks being decisions of the same
+    source (used when the sampler does not start with a draw over the parent's count, e.g.
+    a custom constructor)."""
+
+    def stub(i, child):
+        def s(n, **params):
+            objs = objs_with(child, n, params)
+            if not objs:
+                raise EmptyRequest(f"child {i} asked for an object of size {n} with {params}: there is none")
+            return objs[_SW_DEC.cur.pick(len(objs), "stub")]
+
+        return s
+
+    form.subsamplers = tuple(stub(i, ch) for i, ch in enumerate(form.children))
+    dist: Dict[Any, Fraction] = {}
+    stack: List[List[int]] = [[]]
+    execs = 0
+    while stack:
+        prefix = stack.pop()
+        dec = env.Decisions(prefix)
+        _SW_DEC.cur = dec
+        obj = form.random_sample_object_of_size(n, **pd)
+        execs += 1
+        p = Fraction(1)
+        for _, k, _kind in dec.trace:
+            p *= Fraction(1, k)
+        dist[obj] = dist.get(obj, Fraction(0)) + p
+        for i in range(len(prefix), len(dec.trace)):
+            for alt in range(1, dec.trace[i][1]):
+                stack.append([x for x, _, _ in dec.trace[:i]] + [alt])
+    return dist, execs
+
+
 def distribution(form, n: int, pd: Dict[str, int], c: int, factorised: bool = True) -> Tuple[Dict[Any, Fraction], int]:
     requests: List[Tuple] = []
+    if not _starts_with_draw(form, n, pd, c):
+        return distribution_generic(form, n, pd)
 
     def stub(i, child):
         def s(n, **params):
@@ -359,7 +416,7 @@ def _worker_specs(arg) -> Acc:
 def spec_configs(tier: str) -> List[Any]:
     cfgs = [c for c in lattice(tier) if not getattr(c, "debug", False) and not getattr(c, "smallest", False)]
     if tier == "quick":
-        cfgs = [c for c in cfgs if c.db in ("RuleDB", "Forest") and c.pack in ("base", "norm+sym", "inf2", "g")]
+        cfgs = [c for c in cfgs if c.db in ("RuleDB", "Forest") and c.pack in ("base", "norm+sym", "inf2", "g", "marked")]
     else:
         cfgs = [c for c in cfgs if c.db in ("RuleDB", "Forest")]
     return cfgs
@@ -382,7 +439,7 @@ def run(ctx: Ctx) -> None:
     for family, stats_list in c09g.families(ctx.tier):
         total = len(dg.grammars(family))
         for lo in range(0, total, 40):
-            shards.append((ctx.tier, family, [list(s) for s in stats_list[:2]], lo, min(lo + 40, total)))
+            shards.append((ctx.tier, family, [list(s) for s in (stats_list if family == "one" else stats_list[:2])], lo, min(lo + 40, total)))
     ctx.pmap(_worker_forms_g, shards)
     cfgs = spec_configs(ctx.tier)
     ctx.bounds = {"form_sizes": 4 if ctx.quick else 5, "end_to_end_sizes": 3 if ctx.quick else 4, "end_to_end_configurations": len(cfgs),
